@@ -1015,7 +1015,9 @@ func (e *Engine) sortSlice(st *State, call *ast.CallExpr, lit *ast.FuncLit) erro
 var purePkgs = map[string]bool{"strings": true, "strconv": true, "unicode": true, "path/filepath": true, "path": true, "go/types": true, "math": true, "go/token": true, "unicode/utf8": true}
 
 func (e *Engine) defaultPure(fn *types.Func, key string) *contract.Func {
-	if fn.Pkg() == nil || !purePkgs[fn.Pkg().Path()] {
+	// (error).Error of the universe: a pure function of the error value
+	universeError := fn.Pkg() == nil && fn.Name() == "Error"
+	if !universeError && (fn.Pkg() == nil || !purePkgs[fn.Pkg().Path()]) {
 		return nil
 	}
 	if c, ok := e.autoPure[key]; ok {
